@@ -8,7 +8,9 @@ import (
 
 //zzv:bound T1 = real SafeCmdExecution for every modelled outcome of starting a root-controlled command: exit 0, non-zero exit (*exec.ExitError, with an empty / unterminated / one-line / two-line stderr), cannot be started (*fs.PathError: not executable / bad format), killed at the deadline: the call does not panic
 //zzv:bound T2 = same: the result is either (trimmed output, nil) or ("", non-nil error)
-//zzv:outside the wall-clock bound (timeout + margin) and grandchildren holding the output pipe open: properties of os/exec, pipes and the kernel that this encoder cannot express; callers in fans/cmd.go and sensors/cmd.go are covered by C09
+//zzv:bound T4 = same, plus the two outcomes in which a descendant of the command keeps the output pipe open beyond any bound (a grandchild left behind by a command that exits 0; the child of a shell that is killed at the deadline): the duration of the call is bounded. Decided on the documented contract of os/exec: Output() reads the pipes until EOF, unbounded, unless Cmd.WaitDelay is non-zero; natively the replay measures wall-clock time (limit 3 s for the 2 s timeout, descendants hold the pipe for 4 s)
+//zzv:bound T3 = (packages fans and internal) the callers CmdFan.SetPwm / GetPwm / GetRpm and CmdSensor.GetValue for the same outcomes: no panic, a failed command is an error, and each call starts the command at most once (so the call's duration is at most one command duration)
+//zzv:outside the actual wall-clock numbers (timeout + margin): the encoder has no time; what it decides is whether every wait in the call has a bound under the os/exec contract and how many commands one call starts. Scheduling delays, slow process start-up and the kernel are outside
 //zzv:stub exec.Cmd.Output returns one of the outcomes above, chosen by the harness
 
 var zzTexts = []string{"42", "42\n", "", "not a number", "nan"}
@@ -19,16 +21,22 @@ func ZZ_C19_T_Outcomes() {
 	zzv.RealCommands()
 	dir := zzv.TempDir("exec")
 	path := dir + "/tool"
-	scenario := zzv.Choice("scenario", 5)
+	scenario := zzv.Choice("scenario", 7)
 	text := zzTexts[zzv.Choice("text", len(zzTexts))]
 	stderr := zzStderrs[zzv.Choice("stderr", len(zzStderrs))]
 	zzv.ExecScenarioStderr(path, scenario, text, stderr)
+	t0 := zzv.StopwatchStart()
 	out, err := SafeCmdExecution(path, []string{}, 2*time.Second)
+	over := zzv.StopwatchOver(t0, 3000)
 	zzv.RecordB("error", err != nil)
+	zzv.RecordB("overran", over)
+	zzv.Assert(!over, "T4.call_duration_is_bounded")
 	if err != nil {
 		zzv.Assert(out == "", "T2.error_comes_with_empty_output")
 	} else {
-		zzv.Assert(scenario == zzv.ExecOK, "T2.only_a_clean_exit_is_success")
+		// a command that printed its output and exited 0 may count as a success even if it left a
+		// grandchild behind, but then with its output
+		zzv.Assert(zzv.Or(scenario == zzv.ExecOK, scenario == zzv.ExecGrandchild), "T2.only_a_clean_exit_is_success")
 		zzv.Assert(out == zzTrim(text), "T2.output_is_trimmed")
 	}
 }
